@@ -14,6 +14,9 @@ Hypothesis Hnames : names_ok TL = true.
 Hypothesis Hcmt : comment_ops_ok TL = true.
 Hypothesis Horacle : forall v, good v = true -> f64_text_ok print_f64 parse_f64 v.
 
+Set Default Proof Using "All".
+Local Notation "'LL' f" := (f TL print_f64 parse_f64 good Hnames Hcmt Horacle) (at level 10, f at level 9).
+
 Let T : table_t := table_of TL.
 Notation kinds_of := (kinds_of TL).
 Notation name_bytes := (name_bytes TL).
@@ -136,5 +139,326 @@ Proof.
     2:{ rewrite Hbs at 1. rewrite lenN_app. unfold lenN at 1. rewrite Hlen. lia. }
     rewrite <- !app_assoc. cbn [app]. rewrite <- !app_assoc. reflexivity.
 Qed.
+
+(* ---------------------------------------------------------------- running the assembler over lines *)
+Fixpoint run (st : astate) (ls : list text) : astate + N :=
+  match ls with
+  | [] => inl st
+  | l :: r => match process_line st (prep_line l) with inl st' => run st' r | inr e => inr e end
+  end.
+Lemma run_app a : forall st b, run st (a ++ b) = match run st a with inl st' => run st' b | inr e => inr e end.
+Proof.
+  induction a as [|l a IH]; intros st b; [reflexivity|]. cbn [app run].
+  destruct (process_line st (prep_line l)); [apply IH|reflexivity].
+Qed.
+Lemma asm_lines_run ls : forall st st' n, run st ls = inl st' ->
+  asm_lines TL parse_f64 st ls n = if a_in_fn st' then AErr asm_err_syntax (n + lenN ls) else AOk (a_mod st').
+Proof.
+  induction ls as [|l ls IH]; intros st st' n H; cbn [run Asm.asm_lines] in *.
+  - inversion H; subst. rewrite lenN_nil, N.add_0_r. reflexivity.
+  - destruct (process_line st (prep_line l)) as [st1|e]; [|discriminate].
+    rewrite (IH st1 st' (n + 1) H), lenN_cons. replace (n + 1 + lenN ls) with (n + (1 + lenN ls)) by lia. reflexivity.
+Qed.
+
+(* ---------------------------------------------------------------- the state the assembler reaches *)
+Definition maybe_label (L : list N) (st : astate) (q : N) : astate :=
+  match index_of q L 0 with Some idx => with_label st idx | None => st end.
+Definition step_instr (L : list N) (st : astate) (p : N) (i : instr) : astate :=
+  upd (maybe_label L st p) (op i :: zenc (kinds_of (op i)) (args i))
+      (mk_patches L (a_cur st) p (p + 1) (kinds_of (op i)) (args i)).
+Fixpoint sim (L : list N) (st : astate) (D : list (N * instr)) : astate :=
+  match D with [] => st | (p, i) :: D' => sim L (step_instr L st p i) D' end.
+
+Definition instr_ok (L : list N) (pi : N * instr) : Prop :=
+  exists ks, T (op (snd pi)) = Some ks /\ args_ok L (fst pi) ks (args (snd pi)).
+Definition total_i32 (D : list (N * instr)) : N :=
+  fold_right (fun pi a => count_i32 (kinds_of (op (snd pi))) + a) 0 D.
+Definition lab_inv (L : list N) (cur : N) (st : astate) (p : N) : Prop :=
+  forall l, In l (a_labels st) -> l_fn l = cur ->
+  exists idx q, l_name l = label_name idx /\ index_of q L 0 = Some idx /\ q < p /\ l_off l = q.
+
+Lemma index_of_mem t : forall L i j, index_of t L i = Some j -> mem_N t L = true.
+Proof.
+  induction L as [|y L IH]; intros i j H; [discriminate|]. cbn [index_of mem_N] in *.
+  destruct (t =? y); [reflexivity|]. eapply IH, H.
+Qed.
+Lemma index_of_none_mem t : forall L i, index_of t L i = None -> mem_N t L = false.
+Proof.
+  induction L as [|y L IH]; intros i H; [reflexivity|]. cbn [index_of mem_N] in *.
+  destruct (t =? y); [discriminate|]. eapply IH, H.
+Qed.
+Lemma index_of_inj L : forall a b i j, index_of a L i = Some j -> index_of b L i = Some j -> a = b.
+Proof.
+  induction L as [|y L IH]; intros a b i j Ha Hb; [discriminate|]. cbn [index_of] in *.
+  destruct (N.eqb_spec a y) as [->|Na], (N.eqb_spec b y) as [->|Nb]; try reflexivity.
+  - inversion Ha; subst. apply index_of_ge in Hb. lia.
+  - inversion Hb; subst. apply index_of_ge in Ha. lia.
+  - eapply IH; eassumption.
+Qed.
+
+Lemma find_label_none ls name fn : (forall l, In l ls -> l_fn l = fn -> l_name l <> name) -> find_label ls name fn = None.
+Proof.
+  induction ls as [|l ls IH]; intros H; [reflexivity|]. cbn [find_label].
+  destruct (N.eqb_spec (l_fn l) fn) as [E|E].
+  - rewrite bytes_eqb_neq by (apply H; [left; reflexivity|exact E]). cbn [andb]. apply IH. intros l' Hl'. apply H. right. exact Hl'.
+  - cbn [andb]. apply IH. intros l' Hl'. apply H. right. exact Hl'.
+Qed.
+
+Lemma zenc_len ks : forall vs, length vs = length ks -> lenN (zenc ks vs) = lenN (enc_of ks vs).
+Proof.
+  induction ks as [|k ks IH]; intros [|v vs] H; cbn [length] in H; try discriminate; [reflexivity|].
+  cbn [zenc enc_of]. rewrite !lenN_app, zenc1_len, IH by lia. unfold lenN at 2. rewrite le_bytes_length. reflexivity.
+Qed.
+Lemma mk_patches_len L cur start ks : forall vs off, length vs = length ks -> lenN (mk_patches L cur start off ks vs) = count_i32 ks.
+Proof.
+  induction ks as [|k ks IH]; intros [|v vs] off H; cbn [length] in H; try discriminate; [reflexivity|].
+  cbn [mk_patches]. rewrite lenN_app, patch1_len, count_i32_cons, IH by lia. reflexivity.
+Qed.
+Lemma args_ok_length L p ks : forall vs, args_ok L p ks vs -> length vs = length ks.
+Proof.
+  induction ks as [|k ks IH]; intros [|v vs] H; cbn [AsmLine.args_ok] in H; try contradiction; [reflexivity|].
+  cbn [length]. f_equal. apply IH. tauto.
+Qed.
+
+(* the label step, shared by the instruction positions and the end position *)
+Lemma run_label L cur st q : lenN L <= max_disasm_labels ->
+  a_in_fn st = true -> a_cur st = cur -> a_size st = q -> lab_inv L cur st q ->
+  lenN (a_labels st) + (if mem_N q L then 1 else 0) <= max_labels ->
+  run st (lbl_lines L q) = inl (maybe_label L st q).
+Proof.
+  intros HL Hin Hcur Hsz Hinv Hb. unfold lbl_lines, maybe_label.
+  destruct (index_of q L 0) as [idx|] eqn:Ei; [|reflexivity].
+  rewrite (index_of_mem _ _ _ _ Ei) in Hb.
+  cbn [run]. rewrite prep_line_id.
+  2:{ apply plain_no59. apply Forall_app. split; [apply all_ident_plain, label_name_ident|repeat constructor]. }
+  2:{ right. exists (label_name idx), 58. split; reflexivity. }
+  rewrite (LL process_label); [reflexivity|exact Hin| | |].
+  - apply index_of_bound in Ei. unfold max_disasm_labels in HL. lia.
+  - lia.
+  - apply find_label_none. intros l Hl Hfn Hname. rewrite Hcur in Hfn.
+    destruct (Hinv l Hl Hfn) as [idx' [q' [E1 [E2 [E3 _]]]]]. rewrite E1 in Hname. apply label_name_inj in Hname. subst idx'.
+    pose proof (index_of_inj L _ _ _ _ E2 Ei). lia.
+Qed.
+
+Lemma lab_inv_label L cur st q q' : a_cur st = cur -> a_size st = q -> q < q' -> lab_inv L cur st q -> lab_inv L cur (maybe_label L st q) q'.
+Proof.
+  intros Hcur Hsz Hlt Hinv l Hl Hfn. unfold maybe_label in Hl. destruct (index_of q L 0) as [idx|] eqn:Ei.
+  - unfold with_label in Hl. cbn [a_labels] in Hl. apply in_app_or in Hl. destruct Hl as [Hl|[<-|[]]].
+    + destruct (Hinv l Hl Hfn) as [i' [q0 [E1 [E2 [E3 E4]]]]]. exists i', q0. repeat split; try assumption. lia.
+    + exists idx, q. cbn [l_name l_off]. repeat split; try assumption.
+  - destruct (Hinv l Hl Hfn) as [i' [q0 [E1 [E2 [E3 E4]]]]]. exists i', q0. repeat split; try assumption. lia.
+Qed.
+
+Lemma maybe_label_fields L st q :
+  a_in_fn (maybe_label L st q) = a_in_fn st /\ a_cur (maybe_label L st q) = a_cur st /\ a_size (maybe_label L st q) = a_size st /\
+  a_patches (maybe_label L st q) = a_patches st /\ a_mod (maybe_label L st q) = a_mod st /\ a_rcode (maybe_label L st q) = a_rcode st /\
+  lenN (a_labels (maybe_label L st q)) = lenN (a_labels st) + (if mem_N q L then 1 else 0).
+Proof.
+  unfold maybe_label. destruct (index_of q L 0) eqn:E.
+  - rewrite (index_of_mem _ _ _ _ E). unfold with_label. cbn. rewrite lenN_app. repeat split.
+  - rewrite (index_of_none_mem _ _ _ E). rewrite N.add_0_r. repeat split.
+Qed.
+
+Lemma ienc_len i ks : T (op i) = Some ks -> length (args i) = length ks ->
+  lenN (ienc i) = 1 + lenN (zenc ks (args i)).
+Proof. intros HT Hl. unfold ienc. rewrite ((LL kinds_of_T) _ _ HT), lenN_cons, zenc_len by exact Hl. reflexivity. Qed.
+
+Lemma run_body m L cur : lenN L <= max_disasm_labels -> forall D st p e,
+  chain p D e -> a_in_fn st = true -> a_cur st = cur -> a_size st = p ->
+  Forall (instr_ok L) D -> lab_inv L cur st p ->
+  lenN (a_labels st) + lenN (filter (fun q => mem_N q L) (map fst D ++ [e])) <= max_labels ->
+  lenN (a_patches st) + total_i32 D <= max_patches ->
+  run st (printed_lines m L D e) = inl (maybe_label L (sim L st D) e).
+Proof.
+  intros HL. induction D as [|[p0 i] D IH]; intros st p e Hch Hin Hcur Hsz Hok Hinv Hlab Hpat.
+  - inversion Hch; subst. unfold printed_lines. cbn [flat_map app sim].
+    apply (run_label L (a_cur st)); try assumption; try reflexivity.
+    cbn [map app filter fst] in Hlab. destruct (mem_N (a_size st) L); unfold lenN in *; cbn [length] in *. all: lia.
+  - inversion Hch as [|? ? ? ? Hch']; subst. inversion Hok as [|? ? [ks [HT Haok]] Hok']; subst. cbn [fst snd] in *.
+    unfold printed_lines. cbn [flat_map fst snd]. rewrite <- !app_assoc, run_app.
+    destruct (maybe_label_fields L st (a_size st)) as [F1 [F2 [F3 [F4 [F5 [F6 F7]]]]]].
+    assert (Hlab1 : lenN (a_labels st) + (if mem_N (a_size st) L then 1 else 0) <= max_labels).
+    { cbn [map app filter fst] in Hlab. destruct (mem_N (a_size st) L); unfold lenN in *; cbn [length] in *. all: lia. }
+    rewrite (run_label L (a_cur st)); try assumption; try reflexivity.
+    cbn [app run]. unfold printed_instr. rewrite ((LL kinds_of_T) _ _ HT).
+    destruct ((LL instr_printed) m L (a_size st) i ks HT Haok) as [junk [Ej [_ Ep]]].
+    rewrite Ej, Ep.
+    set (st1 := maybe_label L st (a_size st)) in *.
+    replace (instr_line L (a_size st) i) with (instr_line L (a_size st1) i) by (rewrite F3; reflexivity).
+    assert (Hin1 : a_in_fn st1 = true) by (rewrite F1; exact Hin).
+    assert (Haok1 : args_ok L (a_size st1) ks (args i)) by (rewrite F3; exact Haok).
+    assert (Hp1 : lenN (a_patches st1) + count_i32 ks <= max_patches).
+    { rewrite F4. cbn [total_i32 fold_right snd] in Hpat. rewrite ((LL kinds_of_T) _ _ HT) in Hpat. lia. }
+    rewrite ((LL process_instr) st1 L i ks Hin1 HT Haok1 HL Hp1).
+    pose proof (args_ok_length L _ _ _ Haok) as Hlen.
+    assert (Esz : a_size st + lenN (ienc i) = a_size st + 1 + lenN (zenc ks (args i))) by (rewrite (ienc_len i ks HT Hlen); lia).
+    change (flat_map (fun pi => lbl_lines L (fst pi) ++ [32 :: 32 :: name_bytes (op (snd pi)) ++ fmt_operands m L (fst pi) (op (snd pi)) 0 (kinds_of (op (snd pi))) (args (snd pi))]) D ++ lbl_lines L e)
+      with (printed_lines m L D e).
+    rewrite (IH _ (a_size st + lenN (ienc i)) e Hch').
+    + cbn [sim]. unfold step_instr. fold st1. rewrite ((LL kinds_of_T) _ _ HT), F2, F3. reflexivity.
+    + unfold upd. cbn [a_in_fn]. rewrite F1. exact Hin.
+    + unfold upd. cbn [a_cur]. rewrite F2. reflexivity.
+    + unfold upd. cbn [a_size]. rewrite F3, lenN_cons, Esz. lia.
+    + exact Hok'.
+    + intros l Hl Hfn. unfold upd in Hl. cbn [a_labels] in Hl.
+      apply (lab_inv_label L (a_cur st) st (a_size st) (a_size st + lenN (ienc i))); try assumption; try reflexivity.
+      rewrite (ienc_len i ks HT Hlen). lia.
+    + unfold upd. cbn [a_labels]. rewrite F7. cbn [map app filter fst] in Hlab.
+      destruct (mem_N (a_size st) L); unfold lenN in *; cbn [length] in *. all: lia.
+    + unfold upd. cbn [a_patches]. rewrite lenN_app, F4, mk_patches_len by exact Hlen.
+      cbn [total_i32 fold_right snd] in Hpat. rewrite ((LL kinds_of_T) _ _ HT) in Hpat. fold (total_i32 D) in Hpat. lia.
+Qed.
+
+(* ---------------------------------------------------------------- what the final state contains *)
+Definition all_patches (L : list N) (cur : N) (D : list (N * instr)) : list patch :=
+  flat_map (fun pi => mk_patches L cur (fst pi) (fst pi + 1) (kinds_of (op (snd pi))) (args (snd pi))) D.
+Definition zcode (D : list (N * instr)) : list byte :=
+  flat_map (fun pi => op (snd pi) :: zenc (kinds_of (op (snd pi))) (args (snd pi))) D.
+Definition code_of_D (D : list (N * instr)) : list byte := flat_map (fun pi => ienc (snd pi)) D.
+Definition lab1 (L : list N) (cur q : N) : list label :=
+  match index_of q L 0 with Some idx => [{| l_name := label_name idx; l_off := q; l_fn := cur |}] | None => [] end.
+Definition labs (L : list N) (cur : N) (ps : list N) : list label := flat_map (lab1 L cur) ps.
+
+Lemma maybe_label_labels L st q : a_labels (maybe_label L st q) = a_labels st ++ lab1 L (a_cur st) (a_size st) \/ True.
+Proof. right. exact I. Qed.
+
+Lemma maybe_label_labels_eq L st q : a_size st = q -> a_labels (maybe_label L st q) = a_labels st ++ lab1 L (a_cur st) q.
+Proof.
+  intros <-. unfold maybe_label, lab1. destruct (index_of (a_size st) L 0); [reflexivity|]. rewrite app_nil_r. reflexivity.
+Qed.
+
+Lemma sim_fields L : forall D st p e, chain p D e -> a_size st = p -> Forall (instr_ok L) D ->
+  a_in_fn (sim L st D) = a_in_fn st /\ a_cur (sim L st D) = a_cur st /\ a_mod (sim L st D) = a_mod st /\
+  a_size (sim L st D) = e /\
+  a_patches (sim L st D) = a_patches st ++ all_patches L (a_cur st) D /\
+  rev (a_rcode (sim L st D)) = rev (a_rcode st) ++ zcode D /\
+  a_labels (sim L st D) = a_labels st ++ labs L (a_cur st) (map fst D).
+Proof.
+  induction D as [|[p0 i] D IH]; intros st p e Hch Hsz Hok.
+  - inversion Hch; subst. cbn [sim all_patches zcode labs map flat_map]. rewrite !app_nil_r. repeat split; reflexivity.
+  - inversion Hch as [|? ? ? ? Hch']; subst. inversion Hok as [|? ? [ks [HT Haok]] Hok']; subst. cbn [fst snd] in *.
+    pose proof (args_ok_length L _ _ _ Haok) as Hlen.
+    destruct (maybe_label_fields L st (a_size st)) as [F1 [F2 [F3 [F4 [F5 [F6 F7]]]]]].
+    cbn [sim]. specialize (IH (step_instr L st (a_size st) i) (a_size st + lenN (ienc i)) e Hch').
+    destruct IH as [I1 [I2 [I3 [I4 [I5 [I6 I7]]]]]]; [|exact Hok'|].
+    + unfold step_instr, upd. cbn [a_size]. rewrite F3, ((LL kinds_of_T) _ _ HT), (ienc_len i ks HT Hlen), lenN_cons. lia.
+    + rewrite I1, I2, I3, I4, I5, I6, I7. unfold step_instr, upd.
+      cbn [a_in_fn a_cur a_mod a_patches a_rcode a_labels]. rewrite F1, F2, F4, F5, F6.
+      rewrite (maybe_label_labels_eq L st (a_size st) eq_refl).
+      cbn [all_patches zcode labs map flat_map fst snd]. rewrite rev_app_distr, rev_involutive, <- !app_assoc.
+      repeat split; reflexivity.
+Qed.
+
+(* ---------------------------------------------------------------- resolving the patches at .end *)
+Lemma resolve_app TLs a : forall b cur c, resolve a TLs cur c =
+  resolve a TLs cur c -> resolve (a ++ b) TLs cur c = match resolve a TLs cur c with Some c' => resolve b TLs cur c' | None => None end.
+Proof.
+  induction a as [|p a IH]; intros b cur c _; [reflexivity|]. cbn [app resolve].
+  destruct (negb (p_fn p =? cur)); [apply IH; reflexivity|].
+  destruct (find_label TLs (p_label p) cur); [apply IH; reflexivity|reflexivity].
+Qed.
+
+Lemma find_label_skip LS0 : forall ls name cur, (forall l, In l LS0 -> l_fn l <> cur) ->
+  find_label (LS0 ++ ls) name cur = find_label ls name cur.
+Proof.
+  induction LS0 as [|l LS0 IH]; intros ls name cur H; [reflexivity|]. cbn [app find_label].
+  destruct (N.eqb_spec (l_fn l) cur) as [E|E]; [exfalso; apply (H l); [left; reflexivity|exact E]|].
+  cbn [andb]. apply IH. intros l' Hl'. apply H. right. exact Hl'.
+Qed.
+
+Lemma find_label_labs L cur t idx : index_of t L 0 = Some idx -> forall ps, In t ps ->
+  exists l, find_label (labs L cur ps) (label_name idx) cur = Some l /\ l_off l = t.
+Proof.
+  intros Ei. induction ps as [|q ps IH]; intros Hin; [destruct Hin|].
+  unfold labs. cbn [flat_map]. fold (labs L cur ps). unfold lab1 at 1.
+  destruct (index_of q L 0) as [idx'|] eqn:Eq.
+  - cbn [app find_label l_fn l_name]. rewrite N.eqb_refl. cbn [andb].
+    destruct (N.eq_dec idx' idx) as [->|Hne].
+    + rewrite bytes_eqb_refl. eexists. split; [reflexivity|]. cbn [l_off]. eapply index_of_inj; eassumption.
+    + rewrite bytes_eqb_neq by (intros E; apply label_name_inj in E; contradiction).
+      destruct Hin as [->|Hin]; [rewrite Eq in Ei; inversion Ei; contradiction|apply IH, Hin].
+  - cbn [app]. destruct Hin as [->|Hin]; [rewrite Eq in Ei; discriminate|apply IH, Hin].
+Qed.
+
+Lemma mem_N_In t : forall L, mem_N t L = true -> In t L.
+Proof.
+  induction L as [|y L IH]; intros H; [discriminate|]. cbn [mem_N] in H.
+  destruct (N.eqb_spec t y) as [->|]; [left; reflexivity|right; apply IH, H].
+Qed.
+
+Lemma poke4_at pre v rest off : lenN pre = off ->
+  poke4 (pre ++ 0 :: 0 :: 0 :: 0 :: rest) off v = pre ++ le_bytes 4 v ++ rest.
+Proof.
+  intros H. change (0 :: 0 :: 0 :: 0 :: rest) with ([0; 0; 0; 0] ++ rest). unfold poke4. assert (E : N.to_nat off = length pre) by (unfold lenN in H; lia).
+  rewrite E, firstn_app, firstn_all, Nat.sub_diag. cbn [firstn]. rewrite app_nil_r. f_equal. f_equal.
+  rewrite skipn_app. rewrite skipn_all2 by lia. replace (length pre + 4 - length pre)%nat with 4%nat by lia. reflexivity.
+Qed.
+
+Lemma u32_back p v : p < 4294967296 -> v < 4294967296 -> u32 (u32 (p + v) + 4294967296 - p) = v.
+Proof.
+  intros Hp Hv. unfold u32.
+  destruct (N.lt_ge_cases (p + v) 4294967296) as [H|H].
+  - rewrite (N.mod_small (p + v)) by exact H. replace (p + v + 4294967296 - p) with (v + 1 * 4294967296) by lia.
+    rewrite N.mod_add by lia. apply N.mod_small, Hv.
+  - assert (E : (p + v) mod 4294967296 = p + v - 4294967296).
+    { symmetry. apply (N.mod_unique _ _ 1); lia. }
+    rewrite E. replace (p + v - 4294967296 + 4294967296 - p) with v by lia. apply N.mod_small, Hv.
+Qed.
+
+Section Resolve.
+Variable L : list N.
+Variable cur : N.
+Variable LS : list label.
+Variable bnd : list N.
+Hypothesis HLbnd : forall t, In t L -> In t bnd.
+Hypothesis Hfind : forall t idx, index_of t L 0 = Some idx -> In t bnd ->
+  exists l, find_label LS (label_name idx) cur = Some l /\ l_off l = t.
+
+Lemma resolve_operands start : start < 4294967296 -> forall ks vs pre rest off,
+  AsmLine.args_ok good L start ks vs -> lenN pre = off ->
+  resolve (mk_patches L cur start off ks vs) LS cur (pre ++ zenc ks vs ++ rest) = Some (pre ++ enc_of ks vs ++ rest).
+Proof.
+  intros Hst. induction ks as [|k ks IH]; intros [|v vs] pre rest off Hok Hpre; cbn [AsmLine.args_ok] in Hok; try contradiction.
+  - reflexivity.
+  - destruct Hok as [[Hv [Hl _]] Hr]. cbn [mk_patches zenc enc_of]. unfold patch1, zenc1.
+    destruct (okind_eqb k KI32) eqn:Ek.
+    + assert (k = KI32) by (destruct k; try discriminate Ek; reflexivity). subst k.
+      specialize (Hl eq_refl). rewrite pow256 in Hv.
+      cbn [app resolve p_fn p_label p_code_off p_start]. rewrite N.eqb_refl. cbn [negb].
+      destruct (mem_index _ L 0 Hl) as [idx Ei].
+      destruct (Hfind _ idx Ei (HLbnd _ (mem_N_In _ _ Hl))) as [l [Efl Eoff]].
+      unfold lbl_idx. rewrite Ei, Efl, Eoff.
+      cbn [app]. rewrite poke4_at by exact Hpre. rewrite u32_back by assumption.
+      cbn [ksize]. rewrite (app_assoc pre (le_bytes 4 v) (zenc ks vs ++ rest)).
+      rewrite (IH vs (pre ++ le_bytes 4 v) rest (off + N.of_nat 4) Hr); [rewrite <- !app_assoc; reflexivity|].
+      rewrite lenN_app. unfold lenN at 2. rewrite le_bytes_length. rewrite Hpre. reflexivity.
+    + cbn [app]. rewrite <- app_assoc. rewrite (app_assoc pre (le_bytes (ksize k) v) (zenc ks vs ++ rest)).
+      rewrite (IH vs (pre ++ le_bytes (ksize k) v) rest (off + N.of_nat (ksize k)) Hr); [rewrite <- !app_assoc; reflexivity|].
+      rewrite lenN_app. unfold lenN at 2. rewrite le_bytes_length. rewrite Hpre. reflexivity.
+Qed.
+
+Lemma resolve_all : forall D p e pre, chain p D e -> e < 4294967296 -> Forall (instr_ok L) D -> lenN pre = p ->
+  resolve (all_patches L cur D) LS cur (pre ++ zcode D) = Some (pre ++ code_of_D D).
+Proof.
+  induction D as [|[p0 i] D IH]; intros p e pre Hch He Hok Hpre.
+  - reflexivity.
+  - inversion Hch as [|? ? ? ? Hch']; subst. inversion Hok as [|? ? [ks [HT Haok]] Hok']; subst. cbn [fst snd] in *.
+    pose proof (args_ok_length L _ _ _ Haok) as Hlen.
+    assert (Hle : forall p D e, chain p D e -> p <= e).
+    { clear. intros p D e H. induction H; lia. }
+    pose proof (Hle _ _ _ Hch') as Hpe.
+    cbn [all_patches zcode code_of_D flat_map fst snd]. fold (all_patches L cur D). fold (zcode D). fold (code_of_D D).
+    rewrite resolve_app by reflexivity. unfold ienc. rewrite ((LL kinds_of_T) _ _ HT).
+    replace (pre ++ (op i :: zenc ks (args i)) ++ zcode D) with ((pre ++ [op i]) ++ zenc ks (args i) ++ zcode D)
+      by (rewrite <- app_assoc; reflexivity).
+    rewrite (resolve_operands (lenN pre)); [| |exact Haok|].
+    + replace ((pre ++ [op i]) ++ enc_of ks (args i) ++ zcode D) with ((pre ++ op i :: enc_of ks (args i)) ++ zcode D)
+        by (rewrite <- !app_assoc; reflexivity).
+      rewrite (IH (lenN pre + lenN (ienc i)) e); [rewrite <- !app_assoc; reflexivity|exact Hch'|exact He|exact Hok'|].
+      rewrite lenN_app. unfold ienc. rewrite ((LL kinds_of_T) _ _ HT). reflexivity.
+    + rewrite (ienc_len i ks HT Hlen) in Hpe. lia.
+    + rewrite lenN_app. reflexivity.
+Qed.
+End Resolve.
 
 End Fn.
